@@ -90,35 +90,41 @@ def do_mutate(runner, st, op):
     node = nodes[node_name]
     before = snapshot_identity(task)
     raised = None
-    try:
-        if kind == "assign":
-            arg = None
-            for a in node.__xpmtype__.arguments.values():
-                arg = a
-                break
-            if arg is None:
-                return
-            cur = node.__xpm__.values.get(arg.name)
-            if isinstance(cur, int):
-                setattr(node, arg.name, cur + 1000)
-            else:
-                setattr(node, arg.name, cur)
-        elif kind == "assign-none":
-            names_ = [a.name for a in node.__xpmtype__.arguments.values()]
-            if not names_:
-                return
-            setattr(node, names_[-1], None)
-        elif kind == "set_meta":
-            node.__xpm__.set_meta(True)
-        elif kind == "add_pretasks":
-            node.add_pretasks(S.Pre(src=S.Holder(inner=S.Leaf(x=9999))))
-        elif kind == "identifier":
-            # interleaved identifier request (no mutation)
-            _ = node.__xpm__.identifier.all.hex()
-            k.log("ident-request", x=x, node=node_name)
+    # everything the attempt needs is built first: only the mutating call itself may raise
+    action = None
+    if kind == "assign":
+        arg = None
+        for a in node.__xpmtype__.arguments.values():
+            arg = a
+            break
+        if arg is None:
             return
-        else:
-            raise AssertionError(kind)
+        cur = node.__xpm__.values.get(arg.name)
+        newv = cur + 1000 if isinstance(cur, int) else cur
+        action = lambda: setattr(node, arg.name, newv)  # noqa: E731
+    elif kind == "assign-none":
+        names_ = [a.name for a in node.__xpmtype__.arguments.values()]
+        if not names_:
+            return
+        action = lambda: setattr(node, names_[-1], None)  # noqa: E731
+    elif kind == "set_meta":
+        action = lambda: node.__xpm__.set_meta(True)  # noqa: E731
+    elif kind == "add_pretasks":
+        pt = S.Pre(src=S.Plain(v=9999))
+        action = lambda: node.add_pretasks(pt)  # noqa: E731
+    elif kind == "add_pretasks_from":
+        donor = S.Plain(v=9998)
+        donor.add_pretasks(S.Pre(src=S.Plain(v=9997)))
+        action = lambda: node.add_pretasks_from(donor)  # noqa: E731
+    elif kind == "identifier":
+        # interleaved identifier request (no mutation)
+        _ = node.__xpm__.identifier.all.hex()
+        k.log("ident-request", x=x, node=node_name)
+        return
+    else:
+        raise AssertionError(kind)
+    try:
+        action()
     except BaseException as e:
         from .kernel import Abandon
 
